@@ -157,6 +157,7 @@ package ast
 //@   modifies bl.currentStack.values, bl.err
 //@   ensures[latch] old(bl.err) != nil ==> bl.err != nil
 //@   ensures[usable] bl.err == nil ==> result != nil
+//@   ensures[no-error-means-top] bl.err == nil ==> old(len(bl.currentStack.values)) > 0 && result == old(bl.currentStack.values[len(bl.currentStack.values)-1])
 //@   ensures[top-node] old(bl.err) == nil && old(len(bl.currentStack.values)) > 0 && istype(old(bl.currentStack.values[len(bl.currentStack.values)-1]), Node) ==> bl.err == nil && result == old(bl.currentStack.values[len(bl.currentStack.values)-1]) && len(bl.currentStack.values) == old(len(bl.currentStack.values)) - 1
 //@   ensures[rest-kept] forall(i, 0 <= i && i < len(bl.currentStack.values) ==> bl.currentStack.values[i] == old(bl.currentStack.values[i]))
 //@ func (*ToBoltListener).popSymbolNode
@@ -172,6 +173,8 @@ package ast
 //@   props C10
 //@   modifies bl.currentStack.values, bl.err
 //@   ensures[latch] old(bl.err) != nil ==> bl.err != nil
+// the only SetFunction values ever pushed are the four constants VisitTerminal pushes
+//@   censures bl.err == nil ==> 0 <= result && result <= 3
 
 // ---------------------------------------------------------------------------
 // Typing pass (C10, C01)
